@@ -282,16 +282,18 @@ class BaseLoadedMessage(LoadedMessageInterface):
             maintype, subtype, params, disposition, language, location,
             content_id, content_desc, content_encoding, None, size)
 
-    def contains(self, value: bytes) -> bool:
+    def contains(self, value: bytes, *, header: bool = True) -> bool:
         try:
             content = self.content
         except _NoContent:
             return False
         pattern = re.compile(re.escape(value), re.I)
         for part in content.walk():
-            if pattern.search(bytes(part.header)) is not None:
+            if part is content and not header:
+                pass  # the header of the message itself is not its body
+            elif pattern.search(bytes(part.header)) is not None:
                 return True
-            elif part.body.content_type.maintype == 'text':
+            if part.body.content_type.maintype == 'text':
                 if pattern.search(bytes(part.body)) is not None:
                     return True
         return False
